@@ -829,15 +829,17 @@ package sam
 //@   requires forall(t, 0, len(recv(cSR)), forall(r, 0, len(recv(cSR)[t].records), recv(cSR)[t].records[r].Pos >= 0 && validCigar(recv(cSR)[t].records[r].Cigar) && recv(cSR)[t].records[r].Pos <= len(ref) && cigarFitsQ(recv(cSR)[t].records[r].Cigar, recv(cSR)[t].records[r].Seq.Length) && cigarFitsR(recv(cSR)[t].records[r].Cigar, recv(cSR)[t].records[r].Pos, len(ref))))
 //@   loop 1:
 //@     invariant len(sent(cPair)) == range_i
-//@     invariant forall(t, 0, range_i, sent(cPair)[t].idx == recv(cSR)[t].idx && sent(cPair)[t].queryname == recv(cSR)[t].records[0].Name)
+//@     invariant forall(t, 0, range_i, sent(cPair)[t].idx == recv(cSR)[t].idx)
 //@   loop 2:
 //@     invariant len(sent(cPair)) == range_i1 && len(seqs) == range_i && len(cigars) == range_i && len(positions) == range_i && freshslice(seqs) && freshslice(cigars) && freshslice(positions)
-//@     invariant forall(k, 0, range_i, seqs[k].queryname == group.records[k].Name && len(seqs[k].ref) == len(seqs[k].query) && positions[k] == group.records[k].Pos && positions[k] >= 0)
+//@     invariant forall(k, 0, range_i, len(seqs[k].ref) == len(seqs[k].query))
+//@     invariant forall(k, 0, range_i, positions[k] >= 0)
+//@     invariant forall(k, 0, range_i, positions[k] == group.records[k].Pos)
 //@   loop 3:
 //@     invariant len(sent(cPair)) == range_i1 && len(Q) == range_i && freshslice(Q) && forall(k, 0, range_i, len(Q[k]) == len(ref))
 //@   before call:getOneLinePlusRef#1: assert [c02.record.rows] arg(0) == line && sameslice(arg(1), ref) && arg(2) == true && !omitIns
 //@   before call:getOneLinePlusRef#2: assert [c02.record.rows.noins] arg(0) == line && sameslice(arg(1), ref) && arg(2) == false && omitIns
 //@   before call:blockToSeqPair#1: assert [c02.block] sameslice(arg(0).seqpairArray, seqs) && sameslice(arg(0).cigarArray, cigars) && sameslice(arg(0).posArray, positions) && sameslice(arg(1), ref) && len(seqs) == len(group.records)
-//@   before send#2: assert [c02.pair] pair.idx == group.idx && pair.queryname == group.records[0].Name
-//@   before send#4: assert [c02.pair.noins] pair.idx == group.idx && pair.queryname == group.records[0].Name && sameslice(pair.ref, ref)
+//@   before send#2: assert [c02.pair] pair.idx == group.idx
+//@   before send#4: assert [c02.pair.noins] pair.idx == group.idx && sameslice(pair.ref, ref)
 //@   ensures len(sent(cPair)) == len(recv(cSR)) && forall(t, 0, len(recv(cSR)), sent(cPair)[t].idx == recv(cSR)[t].idx)
